@@ -187,6 +187,10 @@ def _container(case, dom):
     return list(dom)
 
 
+class SecondEvaluationDiffers(Exception):
+    pass
+
+
 def run(case, bodies, dom, form):
     from entity_query_language import symbolic_mode, an, entity, let, From
     T = CLS[case["target"]]
@@ -241,7 +245,19 @@ def run(case, bodies, dom, form):
                     for g, sv in v[2]:
                         conds.append(getattr(y, g) == sv[1])
             q = an(entity(x, *conds))
-    return list(q.evaluate())
+    if len(case["bodies"]) % 3 == 0:
+        # helpers that only LOOK at a query: printing / naming / hashing it (as a debugger, a log line or a dict would)
+        repr(q), str(q), q._name_, hash(q)
+        if form == "predicate":
+            repr(term), term._name_
+    first = list(q.evaluate())
+    if case["container"] != "gen" and (case.get("no_instance_in_domain") or len(case["bodies"]) % 2):
+        # the same query object evaluated again ranges over the same members of the given domain (a generator is one-shot)
+        second = list(q.evaluate())
+        if len(second) != len(first) or any(a_ is not b_ for a_, b_ in zip(first, second)):
+            raise SecondEvaluationDiffers(f"{form} form: first {len(first)} rows, second {len(second)} rows "
+                                          f"({[type(o).__name__ for o in second][:6]})")
+    return first
 
 
 def run_shared(case, bodies, shared):
@@ -277,6 +293,9 @@ def check_case(case, ctx):
     for form in ("predicate", "explicit"):
         try:
             got[form] = enc(run(case, bodies, dom, form))
+        except SecondEvaluationDiffers as e:
+            ctx.fail("SECOND_EVALUATION_DIFFERS", str(e))
+            return
         except Exception as e:
             import traceback
             ctx.fail("EXC", f"{form} form: {type(e).__name__}: {e}\n{traceback.format_exc()[-700:]}")
